@@ -13,6 +13,7 @@ import (
 	"strconv"
 	"strings"
 	"sync"
+	"sync/atomic"
 	"testing"
 	"time"
 
@@ -41,6 +42,10 @@ type c15Case struct {
 	Emits     []c15Emit `json:"emits"`
 	Recovery  bool   `json:"recovery"` // connection state recovery enabled on the server (the reconnecting CONNECT carries pid + offset)
 	Auth      string `json:"auth"`     // "" | map | struct | structptr: the socket's auth data, which must arrive with every CONNECT
+	// forced schedule: the n-th asynchronous dispatch of lifecycle handlers (handlerStore.forEach starts a goroutine per event) is held back for
+	// HoldMs of virtual time before it runs its handlers (0 = none). A goroutine that starts late is an ordinary schedule on a loaded machine.
+	HoldDispatch int `json:"hold_dispatch"`
+	HoldMs       int `json:"hold_ms"`
 }
 
 type c15Auth struct {
@@ -101,6 +106,14 @@ func evalC15(c c15Case) (f *Failure, nontrivial bool) {
 	msg := runRig(rigOpts{Recovery: c.Recovery}, func(r *rig) {
 		start := time.Now()
 		var mu sync.Mutex
+		if c.HoldDispatch > 0 {
+			var dispatches atomic.Int64
+			r.setPoint(func(site string) {
+				if site == "handlerStore.forEach:async" && dispatches.Add(1) == int64(c.HoldDispatch) {
+					time.Sleep(time.Duration(c.HoldMs) * time.Millisecond)
+				}
+			})
+		}
 		var events []c15Event
 		var auths []string // the auth payload of every CONNECT the server saw
 		var received []int // tokens in the order their handlers ran (any server socket)
@@ -221,6 +234,16 @@ func evalC15(c c15Case) (f *Failure, nontrivial bool) {
 		}
 		sort.Slice(closes, func(i, k int) bool { return closes[i] < closes[k] })
 		failedTotal := 0
+		if c.HoldDispatch > 0 {
+			// A held-back dispatch delays the handlers that take these timestamps, not the manager: the schedule clauses are not evaluated
+			// for such cases (the delivery and reconnects-when-reachable clauses below are).
+			for _, e := range events {
+				if e.kind == "failed" {
+					failedTotal++
+				}
+			}
+			closes = nil
+		}
 		for ei, cat := range closes {
 			end := time.Duration(1 << 62)
 			if ei+1 < len(closes) {
@@ -452,6 +475,10 @@ func genC15Case(t *rapid.T, allowPending bool) c15Case {
 	c := c15Case{Transport: rapid.SampledFrom([]string{"polling", "websocket"}).Draw(t, "transport"), Attempts: uint32(rapid.IntRange(0, 5).Draw(t, "attempts")),
 		DelayMs: rapid.SampledFrom([]int{50, 100, 1000}).Draw(t, "delay"), Jitter: rapid.SampledFrom([]float32{0, 0, 0.5, 1}).Draw(t, "jitter")}
 	c.MaxMs = c.DelayMs * rapid.SampledFrom([]int{1, 2, 5, 20}).Draw(t, "maxFactor")
+	if rapid.IntRange(0, 2).Draw(t, "hold") == 0 {
+		c.HoldDispatch = rapid.IntRange(1, 16).Draw(t, "holdDispatch")
+		c.HoldMs = rapid.SampledFrom([]int{1, c.DelayMs / 2, 2 * c.DelayMs, 3 * c.MaxMs}).Draw(t, "holdMs")
+	}
 	c.Recovery = rapid.IntRange(0, 2).Draw(t, "recovery") == 0
 	c.Auth = rapid.SampledFrom([]string{"", "", "map", "struct", "structptr"}).Draw(t, "auth")
 	if allowPending && rapid.IntRange(0, 2).Draw(t, "slowConnect") == 0 {
